@@ -53,7 +53,7 @@ class C17(Check):
     rule = ("k=0: receiver event lists with cumulative TSN within 300 of 2^32 / 2^31 / 0; k=2 / 4 / 5 / 6: _send, "
             "NackGenerator, RTP sender and data-channel layer correspondences with counters starting at the wrap; k=3: metamorphic pairs "
             "(schedule at small origin, same schedule shifted to the wrap) for SCTP endpoints, receive path, "
-            "JitterBuffer, NackGenerator, StreamStatistics; distinct by (case, outputs); non-trivial = the shifted "
+            "JitterBuffer, NackGenerator, Generic NACK feedback parsed off the wire (entries straddling the wrap), StreamStatistics; distinct by (case, outputs); non-trivial = the shifted "
             "run actually crosses a wrap point")
 
     # ---------------------------------------------------------------- translator validation
@@ -134,7 +134,15 @@ class C17(Check):
             if rng.random() < 0.3:
                 events.insert(rng.randrange(len(events)), [1, (base + rng.randrange(0, len(chunks))) & 0xFFFFFFFF, []])
             return {"k": 0, "base": base, "events": events, "sent": sent, "honest": 1}
-        kind = rng.choice(["sctp", "recv", "recv", "jitter", "jitter", "nack", "stats"])
+        kind = rng.choice(["sctp", "recv", "recv", "jitter", "jitter", "nack", "nackwire", "stats"])
+        if kind == "nackwire":
+            # Generic NACK feedback as another implementation packs it: entries in serial order, so one entry (packet id +
+            # 16-bit mask of the following packets) can straddle the 16-bit wrap
+            entries = []
+            for _ in range(rng.randrange(1, 5)):
+                entries.append([rng.randrange(0, 40), rng.choice([0, 1, 0b111, 0x8000, 0xFFFF, rng.randrange(65536)])])
+            return {"k": 3, "kind": "nackwire", "entries": entries,
+                    "delta": (rng.choice(WRAPS16) - 1000 - rng.randrange(0, 60)) % 65536}
         if kind == "sctp":
             sc = SC.gen_scenario(rng, reliable_only=(rng.random() < 0.6), origins=[7], nops=rng.randrange(8, 40))
             sc["ops"] = [op for op in sc["ops"] if op[0] != 7]
@@ -296,6 +304,8 @@ class C17(Check):
             return {"a": _jitter(case, 0, 0), "b": _jitter(case, case["delta"], 0), "c": _jitter(case, 0, case["tdelta"])}
         if kind == "nack":
             return {"a": _nack(case["seqs"], 0), "b": _nack(case["seqs"], case["delta"])}
+        if kind == "nackwire":
+            return {"a": _nackwire(case["entries"], 1000), "b": _nackwire(case["entries"], 1000 + case["delta"])}
         return {"a": _stats(case["evs"], 0, 0), "b": _stats(case["evs"], case["delta"], case["tdelta"])}
 
     # ---------------------------------------------------------------- oracle
@@ -345,6 +355,13 @@ class C17(Check):
             want = [[p, [] if not f else [(f[0] + td) & 0xFFFFFFFF, f[1]]] for p, f in out["a"]]
             if want != out["c"]:
                 return ("jitter-origin-dependent", f"JitterBuffer output differs when timestamps are shifted by {td}")
+            return None
+        if kind == "nackwire":
+            d = case["delta"]
+            want = [(x + d) % 65536 for x in out["a"]]
+            if out["b"] != want:
+                return ("nack-origin-dependent", f"the packets a Generic NACK names differ beyond the shift {d} of the sequence numbers: "
+                                                 f"{out['b'][:20]} instead of {want[:20]}")
             return None
         if kind == "nack":
             d = case["delta"]
@@ -449,6 +466,18 @@ def _nack(seqs, d):
         t = g.add(RtpPacket(sequence_number=(s + d) % 65536))
         outs.append([sorted(g.missing), 1 if t else 0])
     return outs
+
+
+def _nackwire(entries, origin):
+    """the sequence numbers RTCDtlsTransport's RTCP parser reads out of a Generic NACK (built here byte by byte)"""
+    import struct
+    from aiortc.rtp import RtcpPacket
+    fci = b"".join(struct.pack("!HH", (origin + off) % 65536, blp) for off, blp in entries)
+    data = struct.pack("!BBHLL", 0x80 | 1, 205, 2 + len(entries), 77, 1234) + fci
+    lost = []
+    for p in RtcpPacket.parse(data):
+        lost += list(p.lost)
+    return lost
 
 
 def _stats(evs, d, td):
